@@ -219,6 +219,16 @@ def run_cfg(chk, facts, cfg):
                         rounded.add('%s (rounded operand %s)' % (T.show(atom)[:80], T.show(b)[:50]))
             chk.ob('%s:exact-domain:%s%s' % (PID, label, sfx), 'E9 exactness', '%s: the guards over the counts (%d) are computed without rounding, so the accepted domain is mirror-symmetric in floating point too' % (label, nguards),
                    not rounded and nguards > 0, '; '.join(sorted(rounded)[:2]) or ('no guard over the counts found' if not nguards else ''), where)
+            # the laws are read over the reals: every integer operation behind an Ok result must be unable to overflow
+            # for admissible counts (a wrapped product of counts collapses the span for large populations)
+            from ..overflow import undischarged
+            ovp = set()
+            for p0 in paths0:
+                if p0.is_ret() and unwrap_ok(p0.ret) is not None:
+                    for flag, wh in undischarged(p0):
+                        ovp.add('%s at %s' % (T.show(flag)[:80], wh))
+            chk.ob('%s:int-arith:%s%s' % (PID, label, sfx), 'zones', '%s: no integer operation behind an Ok result can overflow for admissible counts (else the bounds are not the real-arithmetic ones the laws are proven for)' % label,
+                   not ovp, '; '.join(sorted(ovp)[:3]), where)
         except Unsupported as e:
             chk.ob('%s:exact-domain:%s%s' % (PID, label, sfx), 'E9 exactness', label, None, 'undecided: %s' % e, where)
         for kind, kname in KINDS:
